@@ -48,7 +48,7 @@ func fpFromBits(bits *Term) *Term {
 	return t
 }
 
-func fpRM() *Term { return &Term{Op: "rm", s: "RNE", vid: -1, size: 1} }
+func fpRM() *Term  { return &Term{Op: "rm", s: "RNE", vid: -1, size: 1} }
 func fpRTZ() *Term { return &Term{Op: "rm", s: "RTZ", vid: -1, size: 1} }
 
 // fpFromInt: Go's int -> float conversion (round to nearest even).
